@@ -1631,7 +1631,9 @@ class Stream(AbstractStream):
         if TP and flow and (phase or self._imol.data.ndim == 2):
             self._imol._data_cache = other._imol._data_cache
         else:
-            self._imol._data_cache.clear()
+            # The cache may be shared with a stream this one was linked to before;
+            # clearing it in place would hand that stream the views of this one.
+            self._imol._data_cache = {}
         if TP:
             self._thermal_condition = other._thermal_condition
         if flow:
